@@ -101,10 +101,12 @@ CHECKS = {
                   'preceding doc comment. 247 native texts (accented, CJK, emoji).',
              note='parse_javadoc (regex) is outside: decoration removal / line joining / tag splitting are not decided.'),
  'C01': dict(engine='K (doc back-scan totality, constructor arity) + A (offsets are token boundaries) + M (parse errors become diagnostics) + native sweeps',
-             technique='Kani/CBMC; z3 over generated action wrappers; MIR', design='4/C01', category='model_checking',
+             technique='Kani/CBMC; z3 over generated action wrappers and lexer patterns; MIR path enumeration', design='4/C01', category='model_checking',
              text='Partial: the four panic mechanisms named by the anchors. Doc back-scan returns normally for every text of <= 7 (9) characters over 10 classes; every offset handed to the line/column '
-                  'lookup is a token boundary for all layouts; every type the constructors build passes check_container without unreachable!/index panic; every non-User parse error becomes a diagnostic.',
-             note='Outside: lexer/regex, line-col, parse_javadoc, termination, id bookkeeping (HashMap).'),
+                  'lookup is a token boundary for all layouts; every type the constructors build passes check_container without unreachable!/index panic; every non-User parse error becomes a diagnostic; '
+                  'the 322 grammar-action functions contain one panic site (Direction\'s unreachable arm), refuted by z3 for every word of the DIRECTION pattern; one result per id, tagged with its id '
+                  '(stored under the caller\'s id with a clone of it, returned keyed by it; C12\'s invariant for any history).',
+             note='Outside: lexer/regex, line-col, parse_javadoc, termination, panics inside the validation functions other than those the harnesses cover.'),
  'C09': dict(engine='T (symbolic execution of check_methods\' per-method closure from an arbitrary abstract pre-state: inductive step) + native sweep',
              technique='inductive step by symbolic execution of the real MIR with abstract HashMap models; z3 for path feasibility', design='4/C09', category='model_checking',
              text='check_methods is a fold over walk_methods with four pieces of state (name -> first method, code -> first method among distinct names, first method with / without a code). '
